@@ -454,6 +454,39 @@ class ExpressionDimensionsMapper(Mapper):
 
     map_product = map_sum
 
+    def _combine_operands(self, operands, *args, **kwargs):
+        """ The dimensions of an elementwise operation on the given operands """
+        dim = (1,)
+        for operand in operands:
+            operand_dim = self.rec(operand, *args, **kwargs)
+            if dim == (1,):
+                dim = operand_dim
+        return dim
+
+    def map_quotient(self, expr, *args, **kwargs):
+        return self._combine_operands((expr.numerator, expr.denominator), *args, **kwargs)
+
+    def map_power(self, expr, *args, **kwargs):
+        return self._combine_operands((expr.base, expr.exponent), *args, **kwargs)
+
+    def map_comparison(self, expr, *args, **kwargs):
+        return self._combine_operands((expr.left, expr.right), *args, **kwargs)
+
+    def map_logical_not(self, expr, *args, **kwargs):
+        return self.rec(expr.child, *args, **kwargs)
+
+    def map_logical_and(self, expr, *args, **kwargs):
+        return self._combine_operands(expr.children, *args, **kwargs)
+
+    map_logical_or = map_logical_and
+
+    def map_inline_call(self, expr, *args, **kwargs):
+        # The result of a function reference is taken to be conformable with its
+        # arguments (elemental reference); without arguments it is a scalar
+        return self._combine_operands(expr.parameters, *args, **kwargs)
+
+    map_cast = map_inline_call
+
     def map_inline_do(self, expr, *args, **kwargs):
         return self.rec(expr.bounds, *args, **kwargs)
 
